@@ -50,6 +50,15 @@ fn main() {
                 progs.push(analyse(&x));
             }
         }
+        "lifted" => {
+            // functions lifted from the llvm-mc assembled templates of corpus/c17
+            for (x, archname, template) in xplor::lifted(&mut rng, &fv::arg_str("corpus", "/verif/corpus/c17")) {
+                let mut v = analyse(&x);
+                v["arch"] = json!(archname);
+                v["template"] = json!(template);
+                progs.push(v);
+            }
+        }
         "replay" => {
             let v: Value = serde_json::from_str(&std::fs::read_to_string(fv::arg_str("in", "")).unwrap()).unwrap();
             for p in v["progs"].as_array().unwrap() {
